@@ -91,6 +91,8 @@ class Codec:
             return OrderedDict((self.dec(k), self.dec(x)) for k, x in a["OD"])
         if "D" in a:
             return dict((self.dec(k), self.dec(x)) for k, x in a["D"])
+        if "J" in a:  # opaque JSON literal (closed query expression)
+            return a["J"]
         if "cls" in a:
             return TARGETS[a["cls"]]()
         if "call" in a:  # simulator-owned conversion callable (a peer)
@@ -231,6 +233,7 @@ class _Py:
         "change_scalars": _change_scalars,
         "identity": lambda x: x,
         "edit_dict": _edit_dict,
+        "query": lambda e: __import__("sim.query", fromlist=["evaluate"]).evaluate(e),
     }
 
     def __getattr__(self, name):
